@@ -138,6 +138,15 @@ claimed["C19"] = dict(
          "monitor shows no reachable panic; ClientIP uses the route's resolver in route handlers and the router's elsewhere.",
     design="5 C19", technique=T)
 
+claimed["C12"] = dict(
+    text="Bounded symbolic execution of the real context life cycle (cTx.reset/resetWithWriter/resetNil, ServeHTTP, Lookup, "
+         "CloneWith, Clone, Close, pool Get/Put, net/url query parsing and http.Request.Clone from source) over every "
+         "sequence of k request shapes and every choice of pooled context: each getter observed in a handler is the "
+         "documented function of the current request (distinct tokens per request in every field), and clones re-read "
+         "after later requests still show their own request. Sequential histories only; see level_note.",
+    design="5 C12", technique="bounded symbolic execution of go/ssa + SMT; exhaustive shape sequences x pool choices by decision search; native replay",
+    note="Concurrent mixes of requests are not decided by this check.")
+
 reasons = {}
 
 ids = [json.loads(l)["id"] for l in open("/verif/properties.jsonl")]
